@@ -1,4 +1,6 @@
 import MorfuseModel.Archive.Value
+import MorfuseModel.Archive.Dict
+import MorfuseModel.Archive.Tables
 import Driver.Util
 /-! driver for the Archive model (properties C10, C11).
 
@@ -7,7 +9,8 @@ A case is `classes <hex>…` (the class registry of the build, in `ClassDef` lis
 `t k` / `s pos byte` / `tall` / `sx pos` / `layout` lines about the archive just written.
 
 items (prefix notation): `p <prim> <nat>` | `r <hex>` | `s <hex>` | `op <lbl>` | `sp <lbl>` |
-`pos <lbl>` | `obj <lbl> <classname-hex> <n> <n items>` | `v <self> <value>`;  `-` is the empty byte string.
+`pos <lbl>` | `obj <lbl> <classname-hex> <n> <n items>` (read back with `ArchiveObject`; `objt`: with `ReadObject<T>()`;
+`objp`: with the polymorphic `ReadObject()`) | `v <self> <value>`;  `-` is the empty byte string.
 values: `n` | `i <nat>` | `f <nat>` | `c <nat>` | `s <hex>` | `k0` | `k <hex>` | `vec <hex>` | `l <lbl>` |
 `ca <holder> <refcount> <n> (<self> <value>)*n` | `car <holder>`.  Read-backs print elements without `<self>`. -/
 namespace Driver.Archive
@@ -61,7 +64,13 @@ partial def parseItem : List String → Option (Item × List String)
   | "pos" :: l :: r => do some (.position (← l.toNat?), r)
   | "obj" :: l :: c :: n :: r => do
     let (body, r') ← parseN (← n.toNat?) r
-    some (.object (← l.toNat?) (← bytes? c) body, r')
+    some (.object .into (← l.toNat?) (← bytes? c) body, r')
+  | "objt" :: l :: c :: n :: r => do
+    let (body, r') ← parseN (← n.toNat?) r
+    some (.object .typed (← l.toNat?) (← bytes? c) body, r')
+  | "objp" :: l :: c :: n :: r => do
+    let (body, r') ← parseN (← n.toNat?) r
+    some (.object .poly (← l.toNat?) (← bytes? c) body, r')
   | _ => none
 partial def parseN : Nat → List String → Option (List Item × List String)
   | 0, r => some ([], r)
@@ -116,7 +125,7 @@ partial def showItem : Item → String
   | .ptr false l => s!"op {l}"
   | .ptr true l => s!"sp {l}"
   | .position l => s!"pos {l}"
-  | .object l c body => s!"obj {l} {toHex c} {body.length}" ++ (if body.isEmpty then "" else " " ++ showItems body)
+  | .object m l c body => s!"{match m with | .into => "obj" | .typed => "objt" | .poly => "objp"} {l} {toHex c} {body.length}" ++ (if body.isEmpty then "" else " " ++ showItems body)
 partial def showItems (l : List Item) : String := " ".intercalate (l.map showItem)
 end
 
@@ -141,6 +150,35 @@ def showW : WItem → String
 
 def showWs (l : List WItem) : String := " ".intercalate (l.map showW)
 
+/-! read-backs: a ConstString value is printed as the text its `const_str` denotes in the reading dictionary
+    (what the harness prints: `dictionary.Get(id)`), ids taken in load order -/
+mutual
+partial def showValueD (d : Dict) : Value → List Nat → String × List Nat
+  | .constString (some _), ids =>
+    match ids with
+    | i :: r => ((match d.text i with | some bs => s!"k {toHex bs}" | none => "k0"), r)
+    | [] => ("k?", [])
+  | .constArray h rc es, ids =>
+    let r := showElemsD d es ids
+    (s!"ca {h} {rc} {es.length}" ++ (if es.isEmpty then "" else " " ++ " ".intercalate r.1), r.2)
+  | v, ids => (showValue v, ids)
+partial def showElemsD (d : Dict) : List (Lbl × Value) → List Nat → List String × List Nat
+  | [], ids => ([], ids)
+  | (_, v) :: es, ids =>
+    let a := showValueD d v ids
+    let b := showElemsD d es a.2
+    (a.1 :: b.1, b.2)
+end
+
+partial def showWsD (d : Dict) : List WItem → List Nat → List String
+  | [], _ => []
+  | .item i :: ws, ids => showItem i :: showWsD d ws ids
+  | .value s v :: ws, ids =>
+    let a := showValueD d v ids
+    s!"v {s} {a.1}" :: showWsD d ws a.2
+
+def showLoaded (L : Loaded) : String := " ".intercalate (showWsD L.dict L.items L.ids)
+
 def errName : Err → String
   | .invalidHeader => "InvalidArchiveHeader" | .wrongVersion => "WrongVersion" | .typeError => "TypeError"
   | .invalidClass => "InvalidClass" | .objectClassError => "ObjectClassError"
@@ -149,21 +187,21 @@ def errName : Err → String
   | .uninit => "UB:uninit" | .oob => "UB:oob" | .alloc => "UB:alloc"
 
 def pcName : PC → String
-  | .hdr => "hdr" | .tag => "tag" | .ver => "ver" | .size => "size" | .cls => "cls" | .len => "len"
+  | .hdr => "hdr" | .tag => "tag" | .ver => "ver" | .size => "size" | .cls => "cls" | .pcls => "pcls" | .len => "len"
   | .name => "name" | .ncls => "ncls" | .idx => "idx" | .data => "data"
 
 /-- FNV-1a (32 bit) of the characters; short stand-in for a long read-back in summaries -/
 def fnv (s : String) : Nat :=
   (s.toList.foldl (fun (h : UInt32) c => (h ^^^ UInt32.ofNat (c.toNat % 256)) * 16777619) (2166136261 : UInt32)).toNat
 
-def showOutcome (r : Except Err (List WItem)) : String :=
+def showOutcome (r : Except Err Loaded) : String :=
   match r with
-  | .ok items => "ok " ++ showWs items
+  | .ok L => "ok " ++ showLoaded L
   | .error e => "err " ++ errName e
 
-def shortOutcome (r : Except Err (List WItem)) : String :=
+def shortOutcome (r : Except Err Loaded) : String :=
   match r with
-  | .ok items => s!"ok:{fnv (showWs items)}"
+  | .ok L => s!"ok:{fnv (showLoaded L)}"
   | .error e => errName e
 
 /-- run-length summary `a-b:outcome` of a list of outcomes indexed from `base` -/
@@ -189,7 +227,9 @@ structure St where
 
 def cfg : Cfg := Cfg.current
 
-def dec (st : St) (bs : Bytes) : Except Err (List WItem) := decodeW cfg st.classes st.info st.sch bs
+/-- the archive is loaded by a script context whose dictionary holds none of the writer's strings (the
+    harness: a new `ScriptContext`; its predefined strings do not matter as long as the load side interns) -/
+def dec (st : St) (bs : Bytes) : Except Err Loaded := decodeWD cfg st.classes st.info st.sch [] bs
 
 def step (st : St) (t : List String) : St × String :=
   match t with
@@ -206,6 +246,10 @@ def step (st : St) (t : List String) : St × String :=
       let st' := { st with info := info, w := w, calls := calls, sch := schemaW w, bytes := bytes, have_ := true }
       (st', toHex bytes ++ " | " ++ showOutcome (dec st' bytes))
     | _, _, _, _ => (st, "bad-op")
+  | ["rsame"] =>
+    -- the same archive loaded in the writing context (whose dictionary holds every text): same answer
+    if !st.have_ then (st, "bad-op") else
+    (st, showOutcome (decodeWD cfg st.classes st.info st.sch (constTextsW st.w) st.bytes))
   | ["layout"] =>
     if !st.have_ then (st, "bad-op") else
     (st, rle 0 ((layout st.info st.calls).map pcName))
@@ -245,6 +289,77 @@ def step (st : St) (t : List String) : St × String :=
     | none => (st, "bad-op")
   | _ => (st, "bad-op")
 
-def main : IO Unit := Driver.runLoop step ({} : St)
+/-! ### `Listener::Archive` with tables: `lisv <k> <N> <view> ; <view> ; <view>`
+(the view of the three `con::set<const_str, ConList>` tables as the harness's `lis` printed it:
+`-` | `<tableLength> <threshold> <tableLengthIndex> <count> (<key-hex> <n> <targets…>)*`).
+Answer: the archive bytes ` | ` the tables the data-directed reader returns, entries sorted by key. -/
+
+partial def parseEntries : Nat → List String → Option (List ConEntry × List String)
+  | 0, r => some ([], r)
+  | n + 1, k :: c :: r => do
+    let kb ← bytes? k
+    let c ← c.toNat?
+    if r.length < c then none else
+    let tg ← (r.take c).mapM String.toNat?
+    let (es, r') ← parseEntries n (r.drop c)
+    some (((if k = "-" then none else some kb), tg) :: es, r')
+  | _, _ => none
+
+def parseSet (t : List String) : Option (Option ConSet) :=
+  match t with
+  | ["-"] => some none
+  | tl :: th :: tli :: cnt :: r => do
+    let (es, r') ← parseEntries (← cnt.toNat?) r
+    if !r'.isEmpty then none else
+    some (some { tableLength := ← tl.toNat?, threshold := ← th.toNat?, tableLengthIndex := ← tli.toNat?, entries := es })
+  | _ => none
+
+def splitOn (t : List String) (sep : String) : List (List String) :=
+  let rec go : List String → List String → List (List String) → List (List String)
+    | [], cur, acc => (cur.reverse :: acc).reverse
+    | x :: xs, cur, acc => if x = sep then go xs [] (cur.reverse :: acc) else go xs (x :: cur) acc
+  go t [] []
+
+def showSet : Option ConSet → String
+  | none => "-"
+  | some s =>
+    let es := (s.entries.toArray.qsort fun a b => toHex (a.1.getD []) < toHex (b.1.getD [])).toList
+    " ".intercalate ([toString s.tableLength, toString s.threshold, toString s.tableLengthIndex, toString s.entries.length]
+      ++ es.flatMap fun e => [match e.1 with | none => "-" | some k => toHex k, toString e.2.length] ++ e.2.map toString)
+
+def lisInfo : Info := { header := [77, 70, 85, 83], name := [108, 105, 115], version := 1 }
+def lisClass : Bytes := [76, 105, 115, 116, 101, 110, 101, 114]
+
+def lisStep (t : List String) : String :=
+  match t with
+  | k :: n :: rest =>
+    match k.toNat?, n.toNat?, (splitOn rest ";").mapM parseSet with
+    | some k, some n, some [a, b, c] =>
+      if k > n then "bad-op" else
+      let st : LTables := { notify := a, waitFor := b, endl := c }
+      let tgt (i : Nat) : Item := .object .into i lisClass [.prim .u8 0]
+      let pre := (List.range k).map fun i => tgt (i + 1)
+      let post := (List.range (n - k)).map fun i => tgt (k + i + 1)
+      let w := pre ++ [.object .into (n + 1) lisClass (listenerCalls st)] ++ post
+      let bytes := encode lisInfo w
+      let T := (encItems [] w).1
+      let t1 := (addUnique (encItems [] pre).1 (n + 1)).1
+      let body := (encItems t1 (listenerCalls st)).2
+      let r := readListener cfg ⟨body, 0, true, List.replicate T.length 0, []⟩
+      toHex bytes ++ " | " ++ (match r with
+        | .ok raw s =>
+          if !s.rest.isEmpty then "err trailing-bytes" else
+          let f := fixTables T raw
+          showSet f.notify ++ " ; " ++ showSet f.waitFor ++ " ; " ++ showSet f.endl
+        | .err e _ => "err " ++ errName e)
+    | _, _, _ => "bad-op"
+  | _ => "bad-op"
+
+def step' (st : St) (t : List String) : St × String :=
+  match t with
+  | "lisv" :: r => (st, lisStep r)
+  | _ => step st t
+
+def main : IO Unit := Driver.runLoop step' ({} : St)
 
 end Driver.Archive
